@@ -37,7 +37,7 @@ func TestReplayC02(t *testing.T) { c02.replay(t) }
 var c03 = &modelCheck{
 	Prop: "C03",
 	Opts: modelOpts{
-		Mine:         gen.MineOpts{MaxHoles: 3, NoDots: true, DupBias: true},
+		Mine:         gen.MineOpts{MaxHoles: 3, NoDots: true, DupBias: true, Unwrap: true},
 		MaxHostLines: 160,
 		MinPlants:    2, MaxPlants: 5,
 		MinMutants: 0, MaxMutants: 2,
